@@ -135,6 +135,17 @@ def r2(ctx) -> None:
     txt = norm(rpp.node)
     ok = "os.path.relpath(source_path.as_posix(), Path(base_path).as_posix())" in txt and "return Path(source_path).as_posix()" in txt
     ctx.ob("C17-R2", "relative_posix_path/relative-to-base", ok, rpp, rpp.node, "paths are made relative to the base folder and rendered as posix", construct="os.path.relpath(source, base)")
+    cont = [c for c in lib.nodes(rpp, ast.Compare) if len(c.ops) == 1 and isinstance(c.ops[0], ast.In) and isinstance(c.comparators[0], ast.Attribute)
+            and c.comparators[0].attr == "parents"]
+    okc = False
+    for c in cont:
+        l, r = c.left, c.comparators[0].value
+        okc = isinstance(l, ast.Call) and isinstance(l.func, ast.Attribute) and l.func.attr in ("resolve", "absolute") and \
+            isinstance(r, ast.Call) and isinstance(r.func, ast.Attribute) and r.func.attr in ("resolve", "absolute")
+    ctx.ob("C17-R2", "relative_posix_path/containment-on-resolved-paths", okc, rpp, cont[0] if cont else rpp.node,
+           "whether a relative source path lies inside the base folder is decided on resolved (absolute) paths on both sides; "
+           "a cwd-relative source compared with an absolute folder never matches otherwise and is stored relative to the cwd",
+           construct=lib.short(cont[0]) if cont else "def relative_posix_path")
     # savers / loaders pass the same folder
     ss = ctx.fn(YML, "YmlProjectIo.save_scheme")
     cs = [c for c in lib.calls(ss) if norm(c.func) == "asdict"]
